@@ -142,10 +142,27 @@ pub const FAR_PROBES: [u64; 10] = [
 
 /// Observe a core. `upto`: observe all indices `< upto`; far probes optional.
 pub fn observe(core: &mut Hypercore, upto: u64, far: bool) -> Result<Obs, Panicked> {
+    observe_with(core, upto, far, &[])
+}
+
+/// Like `observe`; `extra` indices are always included (when the log is long and therefore only
+/// sampled, the caller passes the indices on which its candidate models differ).
+pub fn observe_with(core: &mut Hypercore, upto: u64, far: bool, extra: &[u64]) -> Result<Obs, Panicked> {
     crate::exec::catch(|| {
         let info = core.info();
         let mut blocks = Vec::new();
-        let mut idx: Vec<u64> = (0..upto).collect();
+        // for long logs: has()+get() on a fixed sample (both ends, every 37th index, page edges)
+        let mut idx: Vec<u64> = if upto <= 400 {
+            (0..upto).collect()
+        } else {
+            let mut v: Vec<u64> = (0..24).collect();
+            v.extend((0..upto).step_by(37));
+            v.extend(upto - 40..upto);
+            v.extend(extra.iter().copied().filter(|i| *i < upto));
+            v.sort();
+            v.dedup();
+            v
+        };
         if far {
             for p in FAR_PROBES {
                 if p >= upto {
